@@ -113,7 +113,7 @@ func (o *orC06) onZK(e *ZKEvent) {
 				}
 				r.openBy = e.Inc
 				r.attempts++
-				if m.s.spec.CrashAt != nil && m.s.crashInc == "" && !m.s.crashDone {
+				if m.s.spec.CrashAt != nil && m.s.spec.CrashAt.ArmAfterMs == 0 && m.s.crashInc == "" && !m.s.crashDone {
 					m.s.crashInc = e.Inc // arm the crash point counter
 				}
 				m.probe("c06_attempt_started")
